@@ -62,13 +62,14 @@ VARIABLES
   rd,        \* in-flight read
   oracle, snapAt,   \* ghosts
   dropped,   \* checkpoint ids the caller has dropped (retention named newer ones only, or a restart from another one)
+  objs,      \* table ids that have a Table object in this process (only those can be deleted by a cleanup)
   zombies,   \* table ids of in-memory tables of a replaced database instance (same process), not yet collected
   nops, nrd, nck, nre, nrt, ngc, nfl, hist
 
 vars == <<seq, mem, lv, latest, wal, flushQ, flush, compQ, comp, nextTid, ckpts, pendRm,
-          saves, files, returned, rd, oracle, snapAt, dropped, zombies, nops, nrd, nck, nre, nrt, ngc, nfl, hist>>
+          saves, files, returned, rd, oracle, snapAt, dropped, objs, zombies, nops, nrd, nck, nre, nrt, ngc, nfl, hist>>
 view == <<seq, mem, lv, latest, wal, flushQ, flush, compQ, comp, nextTid, ckpts, pendRm,
-          saves, files, returned, rd, oracle, snapAt, dropped, zombies, nops, nrd, nck, nre, nrt, ngc, nfl>>
+          saves, files, returned, rd, oracle, snapAt, dropped, objs, zombies, nops, nrd, nck, nre, nrt, ngc, nfl>>
 
 EmptyMt == [k \in {} |-> [s |-> 0, v |-> 0]]
 NoFlush == [on |-> FALSE, n |-> 0, tabs |-> <<>>]
@@ -83,7 +84,7 @@ Init ==
   /\ flushQ = 0 /\ flush = NoFlush /\ compQ = 0 /\ comp = NoComp /\ nextTid = 0
   /\ ckpts = <<>> /\ pendRm = {} /\ saves = {} /\ files = NoFiles /\ returned = {}
   /\ rd = NoRead /\ oracle = [k \in Keys |-> Tomb] /\ snapAt = [i \in {} |-> oracle]
-  /\ dropped = {} /\ zombies = {} /\ nops = 0 /\ nrd = 0 /\ nck = 0 /\ nre = 0 /\ nrt = 0 /\ ngc = 0 /\ nfl = 0 /\ hist = <<>>
+  /\ dropped = {} /\ objs = {} /\ zombies = {} /\ nops = 0 /\ nrd = 0 /\ nck = 0 /\ nre = 0 /\ nrt = 0 /\ ngc = 0 /\ nfl = 0 /\ hist = <<>>
 
 Log(r) == hist' = Append(hist, r)
 
@@ -175,7 +176,7 @@ Write(k, v) ==
   /\ LET st == ApplyWrite([mem |-> mem, wal |-> wal, flushQ |-> flushQ, seq |-> seq], k, v)
      IN /\ mem' = st.mem /\ wal' = st.wal /\ flushQ' = st.flushQ /\ seq' = st.seq
         /\ Log([a |-> IF v = Tomb THEN "Delete" ELSE "Put", k |-> k, v |-> v, rot |-> st.rot])
-  /\ UNCHANGED <<lv, latest, flush, compQ, comp, nextTid, ckpts, pendRm, saves, files, returned, rd, snapAt, nrd, nck, nre, nrt, zombies, ngc, dropped, nfl>>
+  /\ UNCHANGED <<lv, latest, flush, compQ, comp, nextTid, ckpts, pendRm, saves, files, returned, rd, snapAt, nrd, nck, nre, nrt, zombies, ngc, dropped, nfl, objs>>
 
 \* Get: two captures (level list, memtable list) with background steps possible in between
 GetBegin(k) ==
@@ -184,7 +185,7 @@ GetBegin(k) ==
            THEN [on |-> TRUE, kind |-> "get", arg |-> {k}, capMem |-> <<>>, capLv |-> lv]
            ELSE [on |-> TRUE, kind |-> "get", arg |-> {k}, capMem |-> mem, capLv |-> <<>>]
   /\ Log([a |-> "GetBegin", k |-> k])
-  /\ UNCHANGED <<seq, mem, lv, latest, wal, flushQ, flush, compQ, comp, nextTid, ckpts, pendRm, saves, files, returned, oracle, snapAt, nops, nck, nre, nrt, zombies, ngc, dropped, nfl>>
+  /\ UNCHANGED <<seq, mem, lv, latest, wal, flushQ, flush, compQ, comp, nextTid, ckpts, pendRm, saves, files, returned, oracle, snapAt, nops, nck, nre, nrt, zombies, ngc, dropped, nfl, objs>>
 
 ReadValue == LET k == CHOOSE k \in rd.arg : TRUE
                  m == IF Dev_GetLevelsFirst THEN mem ELSE rd.capMem
@@ -194,7 +195,7 @@ GetEnd ==
   /\ rd.on /\ rd.kind = "get"
   /\ rd' = NoRead
   /\ Log([a |-> "GetEnd", k |-> CHOOSE k \in rd.arg : TRUE, demanded |-> oracle[CHOOSE k \in rd.arg : TRUE], predicted |-> ReadValue])
-  /\ UNCHANGED <<seq, mem, lv, latest, wal, flushQ, flush, compQ, comp, nextTid, ckpts, pendRm, saves, files, returned, oracle, snapAt, nops, nrd, nck, nre, nrt, zombies, ngc, dropped, nfl>>
+  /\ UNCHANGED <<seq, mem, lv, latest, wal, flushQ, flush, compQ, comp, nextTid, ckpts, pendRm, saves, files, returned, oracle, snapAt, nops, nrd, nck, nre, nrt, zombies, ngc, dropped, nfl, objs>>
 
 ScanBegin(P) ==
   /\ ~rd.on /\ nrd < MaxReads /\ nrd' = nrd + 1
@@ -202,7 +203,7 @@ ScanBegin(P) ==
            THEN [on |-> TRUE, kind |-> "scan", arg |-> P, capMem |-> <<>>, capLv |-> lv]
            ELSE [on |-> TRUE, kind |-> "scan", arg |-> P, capMem |-> mem, capLv |-> <<>>]
   /\ Log([a |-> "ScanBegin", p |-> P])
-  /\ UNCHANGED <<seq, mem, lv, latest, wal, flushQ, flush, compQ, comp, nextTid, ckpts, pendRm, saves, files, returned, oracle, snapAt, nops, nck, nre, nrt, zombies, ngc, dropped, nfl>>
+  /\ UNCHANGED <<seq, mem, lv, latest, wal, flushQ, flush, compQ, comp, nextTid, ckpts, pendRm, saves, files, returned, oracle, snapAt, nops, nck, nre, nrt, zombies, ngc, dropped, nfl, objs>>
 
 ScanValue == LET m == IF Dev_GetLevelsFirst THEN mem ELSE rd.capMem
                  l == IF Dev_GetLevelsFirst THEN rd.capLv ELSE lv
@@ -211,7 +212,7 @@ ScanEnd ==
   /\ rd.on /\ rd.kind = "scan"
   /\ rd' = NoRead
   /\ Log([a |-> "ScanEnd", p |-> rd.arg, demanded |-> [k \in rd.arg |-> oracle[k]], predicted |-> ScanValue])
-  /\ UNCHANGED <<seq, mem, lv, latest, wal, flushQ, flush, compQ, comp, nextTid, ckpts, pendRm, saves, files, returned, oracle, snapAt, nops, nrd, nck, nre, nrt, zombies, ngc, dropped, nfl>>
+  /\ UNCHANGED <<seq, mem, lv, latest, wal, flushQ, flush, compQ, comp, nextTid, ckpts, pendRm, saves, files, returned, oracle, snapAt, nops, nrd, nck, nre, nrt, zombies, ngc, dropped, nfl, objs>>
 
 -----------------------------------------------------------------------------
 \* background flush task (serialised by the global queue): start = snapshot the
@@ -227,6 +228,7 @@ FlushStart ==
   /\ flushQ' = flushQ - 1
   /\ Log([a |-> "FlushStart"])
   /\ UNCHANGED <<seq, mem, lv, latest, wal, compQ, comp, ckpts, pendRm, saves, returned, rd, oracle, snapAt, nops, nrd, nck, nre, nrt, zombies, ngc, dropped, nfl>>
+  /\ objs' = objs \cup {nextTid + i - 1 : i \in 1..(Len(mem) - 1)}
 
 FlushSwap ==
   /\ flush.on
@@ -236,7 +238,7 @@ FlushSwap ==
   /\ wal' = WalTruncate(wal, latest')
   /\ flush' = NoFlush /\ compQ' = compQ + 1
   /\ Log([a |-> "FlushSwap"])
-  /\ UNCHANGED <<seq, flushQ, comp, nextTid, ckpts, pendRm, saves, files, returned, rd, oracle, snapAt, dropped, zombies, nops, nrd, nck, nre, nrt, ngc, nfl>>
+  /\ UNCHANGED <<seq, flushQ, comp, nextTid, ckpts, pendRm, saves, files, returned, rd, oracle, snapAt, dropped, objs, zombies, nops, nrd, nck, nre, nrt, ngc, nfl>>
 
 \* background compaction (abstract policy: when L0 reaches the trigger, merge
 \* all of L0 and L1 into one L1 table; tombstones dropped because L1 is the base)
@@ -256,6 +258,7 @@ CompactPick ==
      ELSE UNCHANGED <<comp, nextTid, files, zombies, ngc, dropped, nfl>>
   /\ Log([a |-> "CompactPick"])
   /\ UNCHANGED <<seq, mem, lv, latest, wal, flushQ, flush, ckpts, pendRm, saves, returned, rd, oracle, snapAt, nops, nrd, nck, nre, nrt, zombies, ngc, dropped, nfl>>
+  /\ objs' = IF Len(lv[1]) >= L0Trigger THEN objs \cup {nextTid} ELSE objs
 
 CompactSwap ==
   /\ comp.on
@@ -265,7 +268,7 @@ CompactSwap ==
   /\ comp' = NoComp
   /\ compQ' = compQ + 1   \* the task loops until Compact returns no change set
   /\ Log([a |-> "CompactSwap"])
-  /\ UNCHANGED <<seq, mem, wal, flushQ, flush, nextTid, ckpts, pendRm, saves, files, returned, rd, oracle, snapAt, dropped, zombies, nops, nrd, nck, nre, nrt, ngc, nfl>>
+  /\ UNCHANGED <<seq, mem, wal, flushQ, flush, nextTid, ckpts, pendRm, saves, files, returned, rd, oracle, snapAt, dropped, objs, zombies, nops, nrd, nck, nre, nrt, ngc, nfl>>
 
 -----------------------------------------------------------------------------
 \* checkpoints
@@ -278,14 +281,14 @@ Checkpoint ==
         /\ snapAt' = Override(snapAt, [i \in {id} |-> oracle])
         /\ Log([a |-> "Checkpoint", id |-> id, snap |-> oracle])
   /\ wal' = WalRotate(wal)
-  /\ UNCHANGED <<seq, mem, lv, latest, flushQ, flush, compQ, comp, nextTid, pendRm, files, returned, rd, oracle, nops, nrd, nre, nrt, zombies, ngc, dropped, nfl>>
+  /\ UNCHANGED <<seq, mem, lv, latest, flushQ, flush, compQ, comp, nextTid, pendRm, files, returned, rd, oracle, nops, nrd, nre, nrt, zombies, ngc, dropped, nfl, objs>>
 
 SaveWal(sv) ==
   /\ sv \in saves /\ sv.stage = "wal"
   /\ files' = [files EXCEPT !.wal = Override(@, [i \in {sv.walId} |-> sv.content])]
   /\ saves' = (saves \ {sv}) \cup {[sv EXCEPT !.stage = "doc"]}
   /\ Log([a |-> "SaveWal", id |-> sv.id])
-  /\ UNCHANGED <<seq, mem, lv, latest, wal, flushQ, flush, compQ, comp, nextTid, ckpts, pendRm, returned, rd, oracle, snapAt, nops, nrd, nck, nre, nrt, zombies, ngc, dropped, nfl>>
+  /\ UNCHANGED <<seq, mem, lv, latest, wal, flushQ, flush, compQ, comp, nextTid, ckpts, pendRm, returned, rd, oracle, snapAt, nops, nrd, nck, nre, nrt, zombies, ngc, dropped, nfl, objs>>
 
 \* CheckpointList.Save: write the document with the *current* list, then delete
 \* the WALs of checkpoints pending removal
@@ -297,7 +300,7 @@ SaveDoc(sv) ==
   /\ saves' = saves \ {sv}
   /\ returned' = returned \cup {sv.id}
   /\ Log([a |-> "SaveDoc", id |-> sv.id])
-  /\ UNCHANGED <<seq, mem, lv, latest, wal, flushQ, flush, compQ, comp, nextTid, ckpts, rd, oracle, snapAt, nops, nrd, nck, nre, nrt, zombies, ngc, dropped, nfl>>
+  /\ UNCHANGED <<seq, mem, lv, latest, wal, flushQ, flush, compQ, comp, nextTid, ckpts, rd, oracle, snapAt, nops, nrd, nck, nre, nrt, zombies, ngc, dropped, nfl, objs>>
 
 \* UpdateRetainedCheckpoints(ids): RetainOnly + Save (the caller is the job's
 \* retention notice, which only ever names completed = returned checkpoints)
@@ -315,7 +318,7 @@ Retain(ids) ==
         \* what the caller knowingly gave up: completed checkpoints older than the newest it names
         /\ dropped' = dropped \cup {ckpts[i].id : i \in {j \in 1..Len(ckpts) : ckpts[j].id \notin ids /\ ckpts[j].id < top}}
   /\ Log([a |-> "Retain", ids |-> ids])
-  /\ UNCHANGED <<seq, mem, lv, latest, wal, flushQ, flush, compQ, comp, nextTid, saves, returned, rd, oracle, snapAt, zombies, nops, nrd, nck, nre, ngc, nfl>>
+  /\ UNCHANGED <<seq, mem, lv, latest, wal, flushQ, flush, compQ, comp, nextTid, saves, returned, rd, oracle, snapAt, zombies, nops, nrd, nck, nre, ngc, nfl, objs>>
 
 \* UpdateRetainedCheckpoints whose save of the checkpoints document FAILS (storage
 \* fault): the in-memory list is already reduced, the dropped checkpoints wait
@@ -332,7 +335,7 @@ RetainFail(ids) ==
         /\ pendRm' = pendRm \cup gone
         /\ dropped' = dropped \cup {ckpts[i].id : i \in {j \in 1..Len(ckpts) : ckpts[j].id \notin ids /\ ckpts[j].id < top}}
   /\ Log([a |-> "RetainFail", ids |-> ids])
-  /\ UNCHANGED <<seq, mem, lv, latest, wal, flushQ, flush, compQ, comp, nextTid, saves, files, returned, rd, oracle, snapAt, zombies, nops, nrd, nck, nre, nrt, ngc>>
+  /\ UNCHANGED <<seq, mem, lv, latest, wal, flushQ, flush, compQ, comp, nextTid, saves, files, returned, rd, oracle, snapAt, zombies, nops, nrd, nck, nre, nrt, ngc, objs>>
 
 -----------------------------------------------------------------------------
 \* opening a database from a checkpoint handle = pure function of durable state
@@ -386,6 +389,7 @@ Reopen(id, crash) ==
   /\ Log([a |-> "Reopen", id |-> id, crash |-> crash, demanded |-> snapAt[id], predicted |-> Restored(id)])
   /\ dropped' = (returned \cup {ckpts[i].id : i \in 1..Len(ckpts)}) \ {id}     \* a restart keeps working from this checkpoint only
   /\ UNCHANGED <<files, returned, rd, snapAt, nops, nrd, nrt, ngc, nfl>>
+  /\ objs' = IF crash THEN TabIds(Opened(id).lv) ELSE objs \cup TabIds(Opened(id).lv)
 
 \* runtime.GC(): every table object nothing refers to is collected and its
 \* cleanup deletes the file - unless (repaired code) another table object of
@@ -395,9 +399,10 @@ LiveTabIds == TabIds(lv) \cup UNION {TabIds(ckpts[i].lv) : i \in 1..Len(ckpts)} 
               \cup {comp.out[i].id : i \in 1..Len(comp.out)}
 GcRun ==
   /\ ~rd.on /\ ngc < MaxGc /\ ngc' = ngc + 1
-  /\ LET dead == IF Dev_GcIgnoresSharing THEN (DOMAIN files.sst \ LiveTabIds) \cup zombies
-                 ELSE DOMAIN files.sst \ LiveTabIds
-     IN files' = [files EXCEPT !.sst = Restrict(@, DOMAIN @ \ dead)]
+  /\ LET dead == IF Dev_GcIgnoresSharing THEN (objs \ LiveTabIds) \cup zombies
+                 ELSE objs \ LiveTabIds
+     IN /\ files' = [files EXCEPT !.sst = Restrict(@, DOMAIN @ \ dead)]
+        /\ objs' = objs \ dead
   /\ zombies' = {}
   /\ Log([a |-> "GcRun", demanded |-> oracle])
   /\ UNCHANGED <<seq, mem, lv, latest, wal, flushQ, flush, compQ, comp, nextTid, ckpts, pendRm, saves, returned, rd, oracle, snapAt, nops, nrd, nck, nre, nrt, dropped, nfl>>
@@ -436,7 +441,7 @@ RestoreOK == ~RestoreBad
 \* C09 (files half): everything a retained checkpoint document names exists
 \* with the content it had when the checkpoint was taken
 FilesSafe ==
-  \A i \in 1..Len(files.doc) :
+  \A i \in {j \in 1..Len(files.doc) : files.doc[j].id \notin dropped} :
     LET cp == files.doc[i]
     IN /\ \A l \in 1..2 : \A j \in 1..Len(cp.lv[l]) :
             cp.lv[l][j].id \in DOMAIN files.sst /\ files.sst[cp.lv[l][j].id] = cp.lv[l][j].ents
